@@ -22,9 +22,9 @@ const (
 	labelSilent = "hsilent" // write nothing, return nil
 	labelError  = "herror"  // write nothing, return an ordinary error
 	labelNetErr = "hneterr" // write nothing, return a net timeout error
-	// labelBadPack: build the usual response plus a record that cannot be put
-	// on the wire (a TXT character-string of 300 bytes), write it, and return
-	// whatever error the writer gave, as every service handler does.
+	// labelBadPack: build a response with a record that cannot be put on the
+	// wire (an owner name with an empty label), write it, and return whatever
+	// error the writer gave, as every service handler does.
 	labelBadPack = "hbadpack"
 )
 
@@ -152,11 +152,12 @@ func hServe(ctx context.Context, rw dnsserver.ResponseWriter, req *dns.Msg) (err
 	case labelNetErr:
 		return timeoutErr{}
 	case labelBadPack:
-		opt := req.IsEdns0()
-		resp := hResponse(req, q, opt != nil && opt.Do(), opt != nil)
-		resp.Answer = append(resp.Answer, &dns.TXT{
-			Hdr: dns.RR_Header{Name: q.Name, Rrtype: dns.TypeTXT, Class: dns.ClassINET, Ttl: 1},
-			Txt: []string{strings.Repeat("u", 300)},
+		// Small enough never to be truncated, so that the unpackable record
+		// reaches the packer on every transport.
+		resp := (&dns.Msg{}).SetReply(req)
+		resp.Ns = append(resp.Ns, &dns.NS{
+			Hdr: dns.RR_Header{Name: "empty..label.test.", Rrtype: dns.TypeNS, Class: dns.ClassINET, Ttl: 1},
+			Ns:  "ns1.zone.test.",
 		})
 
 		return rw.WriteMsg(ctx, req, resp)
@@ -291,11 +292,11 @@ func hRR(owner string, sel byte, ttl uint32) (rr dns.RR) {
 type refKind int
 
 const (
-	refWrote  refKind = iota // H wrote a response
-	refSilent                // H wrote nothing and returned nil
-	refError                 // H returned an error
-	refNetErr                // H returned a net timeout error
-	refBadPack               // H handed the writer a response that cannot be packed and returned the writer's error
+	refWrote   refKind = iota // H wrote a response
+	refSilent                 // H wrote nothing and returned nil
+	refError                  // H returned an error
+	refNetErr                 // H returned a net timeout error
+	refBadPack                // H handed the writer a response that cannot be packed and returned the writer's error
 )
 
 func (k refKind) String() string {
